@@ -25,7 +25,7 @@ static void run_case(const Case &c, long id)
   wv_null_input = c.cls == "nullinput";
   OpResult v = wv_verify(c.C, c.key, c.T);
   OpResult d = wv_decrypt(c.C, c.key, c.T);
-  OpResult dp = wv_null_input ? d : wv_decrypt_pipe(c.C, c.key, c.T);
+  OpResult dp = (wv_null_input || c.C.size() > 60000) ? d : wv_decrypt_pipe(c.C, c.key, c.T); // a pipe holds 64 KiB without a reader
   wv_null_input = false;
   Ev("op").i("id", id).str("cls", c.cls).str("kind", c.kind).i("pos", c.pos).i("val", c.val).i("T", c.T).i("S", iobuffer::sum).b("key", c.key).b("C", c.C)
       .str("how", "ok").i("ver_ret", v.ret).i("ver_outlen", v.out.size()).i("ver_intact", v.in_after == c.C)
